@@ -95,6 +95,10 @@ def count_limit():
     return _count_limit
 
 
+CMD_NAMES = ["NOP", "APRD", "APWR", "APRW", "FPRD", "FPWR", "FPRW", "BRD",
+             "BWR", "BRW", "LRD", "LWR", "LRW", "ARMW", "FRMW"]
+
+
 def payload(n, fb):
     return bytes((fb + 31 * i) & 0xff for i in range(n))
 
@@ -122,7 +126,9 @@ def run_case(case):
             boundary = True
             classes.append("boundary%+d" % (ln - capacity))
         data = payload(ln, spec["fillbyte"])
-        cmd = ECCmd(spec["cmd"])
+        # the command by its name: the numbers are the specification's
+        # (ETG.1000.4 table of command types), not the library's
+        cmd = getattr(ECCmd, CMD_NAMES[spec["cmd"]])
         addr = tuple(spec["addr"])
         fits = size + 12 + ln <= MAXSIZE
         try:
@@ -195,7 +201,8 @@ def run_case(case):
         if dict(pkt.counters) != exp_counters:
             return fail(case, f"counters {pkt.counters} != working counter "
                         f"positions {exp_counters}", classes)
-        exp_otf = [(hdr, hdr + 12 + len(data), ECCmd(spec["cmd"]))
+        exp_otf = [(hdr, hdr + 12 + len(data),
+                    getattr(ECCmd, CMD_NAMES[spec["cmd"]]))
                    for spec, data, _, _, hdr in accepted if spec["writer"]]
         if [tuple(x) for x in pkt.on_the_fly] != exp_otf:
             return fail(case, f"on_the_fly {pkt.on_the_fly} != {exp_otf}",
